@@ -1075,6 +1075,7 @@ func C13(c *core.Ctx) {
 		var P *ssa.Phi
 		delta := int64(-1)
 		mixed := false
+		nForm := map[int64]int{}
 		isCursor := func(phi *ssa.Phi) bool {
 			for _, e := range phi.Edges {
 				if bo, ok := e.(*ssa.BinOp); ok && bo.Op == token.ADD {
@@ -1107,11 +1108,19 @@ func C13(c *core.Ctx) {
 			if phi == nil || !isCursor(phi) {
 				return
 			}
-			if P != nil && (P != phi || delta != d) {
+			if P != nil && P != phi {
 				mixed = true
 			}
-			P, delta = phi, d
+			nForm[d]++
+			P = phi
 		})
+		// the same cursor may also be switched over for the absent-field actions (progress ==
+		// k): the form that decides field positions is the one used more often
+		if nForm[1] >= nForm[0] && nForm[1] > 0 {
+			delta = 1
+		} else if nForm[0] > 0 {
+			delta = 0
+		}
 		key := "ordered-progress-invariant:" + mk
 		if P != nil && skipDefault != nil && !P.Block().Dominates(skipDefault.Block()) {
 			// the invariant is about the unknown-element branch INSIDE the field loop (a skip
@@ -1129,7 +1138,7 @@ func C13(c *core.Ctx) {
 			skipDefault = inLoop
 		}
 		if P == nil || skipDefault == nil || mixed {
-			c.Und("R13.3", key, p.Pos(fn.Pos()), "cannot identify the field cursor (progress) or the unknown-element branch of the ordered parser")
+			c.Und("R13.3", key, p.Pos(fn.Pos()), fmt.Sprintf("cannot identify the field cursor (progress) or the unknown-element branch of the ordered parser (cursor found=%v, branch found=%v, two cursor forms=%v)", P != nil, skipDefault != nil, mixed))
 			continue
 		}
 		// R13.3b: the ordered loop runs while the position the cursor stands for (cursor +
